@@ -6,12 +6,15 @@
 (*   CellbaseOK   capacity created by the cellbase = Reward(target): primary + miner's secondary share +           *)
 (*                committer fees + proposer fees (the two fee components are judged by Judge_Economics.tla),       *)
 (*                nothing when there is no target or the reward cannot pay for its cell                            *)
-(*   NoOtherMint  total live capacity changes exactly by cellbase - fees of the block's transactions               *)
+(*   NoOtherMint  total live capacity changes exactly by cellbase - fees of the block's transactions + the         *)
+(*                NervosDAO interest of its withdrawals (WithdrawAmount of the two header fields each one names)   *)
+(*   ClaimOK      the amount the harness made a phase-2 transaction create = WithdrawAmount (oracle self-check)   *)
+(*   WithdrawFee  the fee the chain recorded for the phase-2 transactions = WithdrawAmount + other inputs - outputs *)
 (* checks/c06.py generates ConstInit (Blocks + constants).  Census == FALSE on purpose, see Epoch_A.tla.           *)
 EXTENDS Epoch, EconomicsArith
 
 CONSTANTS
-  \* @type: Seq({n: Int, hasTarget: Bool, par: {ar: Int, c: Int, s: Int, u: Int}, dao: {ar: Int, c: Int, s: Int, u: Int}, estart: Int, elen: Int, ebase: Int, erem: Int, added: Int, freed: Int, interest: Int, cbCap: Int, cbOutputs: Int, tn: Int, tstart: Int, tlen: Int, tbase: Int, trem: Int, tparU: Int, tparC: Int, tfee: Int, tprop: Int, cellOcc: Int, liveCap: Int, parLiveCap: Int, liveOcc: Int, fees: Int});
+  \* @type: Seq({n: Int, hasTarget: Bool, par: {ar: Int, c: Int, s: Int, u: Int}, dao: {ar: Int, c: Int, s: Int, u: Int}, estart: Int, elen: Int, ebase: Int, erem: Int, added: Int, freed: Int, wdN: Int, w1cap: Int, w1occ: Int, w1arD: Int, w1arW: Int, w2cap: Int, w2occ: Int, w2arD: Int, w2arW: Int, w3cap: Int, w3occ: Int, w3arD: Int, w3arW: Int, wClaim: Int, wPlainIn: Int, wOut: Int, wFeeObs: Int, cbCap: Int, cbOutputs: Int, tn: Int, tstart: Int, tlen: Int, tbase: Int, trem: Int, tparU: Int, tparC: Int, tfee: Int, tprop: Int, cellOcc: Int, liveCap: Int, parLiveCap: Int, liveOcc: Int, fees: Int});
   Blocks
 
 VARIABLES
@@ -26,11 +29,32 @@ VARIABLES
   \* @type: Int -> Int;
   expCellbase,
   \* @type: Set(Int);
-  badMint
-evars == <<badDao, expDao, badOccupied, badCellbase, expCellbase, badMint>>
+  badMint,
+  \* @type: Set(Int);
+  badClaim,
+  \* @type: Set(Int);
+  badWithdrawFee,
+  \* @type: Int -> Int;
+  expWithdraw
+evars == <<badDao, expDao, badOccupied, badCellbase, expCellbase, badMint, badClaim, badWithdrawFee, expWithdraw>>
 
 \* @type: (Int, Int, Int, Int) => {number: Int, start: Int, len: Int, base: Int, rem: Int, prevHR: Int, compact: Int};
 Ep(start, len, base, rem) == [number |-> 0, start |-> start, len |-> len, base |-> base, rem |-> rem, prevHR |-> 0, compact |-> 0]
+
+\* NervosDAO phase-2 inputs of the block (at most three are recorded): what they may create, their own capacity
+\* @type: (Int) => Int;
+WSum(i) ==
+  LET b == Blocks[i]
+  IN (IF b.wdN >= 1 THEN WithdrawAmount(b.w1cap, b.w1occ, b.w1arD, b.w1arW) ELSE 0)
+   + (IF b.wdN >= 2 THEN WithdrawAmount(b.w2cap, b.w2occ, b.w2arD, b.w2arW) ELSE 0)
+   + (IF b.wdN >= 3 THEN WithdrawAmount(b.w3cap, b.w3occ, b.w3arD, b.w3arW) ELSE 0)
+\* @type: (Int) => Int;
+WCaps(i) ==
+  LET b == Blocks[i]
+  IN (IF b.wdN >= 1 THEN b.w1cap ELSE 0) + (IF b.wdN >= 2 THEN b.w2cap ELSE 0) + (IF b.wdN >= 3 THEN b.w3cap ELSE 0)
+\* the interest the block's withdrawals take out of S
+\* @type: (Int) => Int;
+Interest(i) == WSum(i) - WCaps(i)
 
 \* @type: (Int) => {ar: Int, c: Int, s: Int, u: Int};
 SpecDao(i) ==
@@ -38,7 +62,7 @@ SpecDao(i) ==
       ep == Ep(b.estart, b.elen, b.ebase, b.erem)
       p  == BlockReward(ep, b.n)
       g2 == SecondaryIssuance(ep, b.n)
-  IN DaoNext(b.par, p, g2, b.added, b.freed, b.interest)
+  IN DaoNext(b.par, p, g2, b.added, b.freed, Interest(i))
 
 \* @type: (Int) => Int;
 SpecCellbase(i) ==
@@ -57,9 +81,12 @@ EInit ==
   /\ badOccupied = {i \in DOMAIN Blocks : Blocks[i].dao.u # Blocks[i].liveOcc}
   /\ expCellbase = [i \in DOMAIN Blocks |-> SpecCellbase(i)]
   /\ badCellbase = {i \in DOMAIN Blocks : Blocks[i].cbCap # expCellbase[i] \/ (expCellbase[i] = 0 /\ Blocks[i].cbOutputs # 0)}
-  /\ badMint = {i \in DOMAIN Blocks : Blocks[i].liveCap # Blocks[i].parLiveCap + Blocks[i].cbCap - Blocks[i].fees + Blocks[i].interest}
+  /\ badMint = {i \in DOMAIN Blocks : Blocks[i].liveCap # Blocks[i].parLiveCap + Blocks[i].cbCap - Blocks[i].fees + Interest(i)}
+  /\ expWithdraw = [i \in DOMAIN Blocks |-> WSum(i)]
+  /\ badClaim = {i \in DOMAIN Blocks : Blocks[i].wClaim # expWithdraw[i]}
+  /\ badWithdrawFee = {i \in DOMAIN Blocks : Blocks[i].wdN > 0 /\ Blocks[i].wFeeObs # expWithdraw[i] + Blocks[i].wPlainIn - Blocks[i].wOut}
 ENext == UNCHANGED vars /\ UNCHANGED evars
 
-AllBlocksAgree == badDao = {} /\ badOccupied = {} /\ badCellbase = {} /\ badMint = {}
+AllBlocksAgree == badDao = {} /\ badOccupied = {} /\ badCellbase = {} /\ badMint = {} /\ badClaim = {} /\ badWithdrawFee = {}
 Census == FALSE
 =============================================================================
